@@ -29,6 +29,8 @@ pub mod c17;
 pub mod c19;
 #[cfg(feature = "full")]
 pub mod c01;
+#[cfg(feature = "full")]
+pub mod c01dyn;
 pub mod c12;
 #[cfg(feature = "full")]
 pub mod common;
